@@ -169,8 +169,9 @@ class KeyedList(Generic[ItemType, KeyType], MutableSequence, KeyedBase):  # pyli
         if isinstance(index_or_key, slice):
             raise RuntimeError("Cannot delete multiple values at a time.")
         if isinstance(index_or_key, int):
-            value = self._list.pop(index_or_key)
-            del self._dict[self.key(value)]
+            key = self.key(self._list[index_or_key])
+            del self._list[index_or_key]
+            del self._dict[key]
             return
 
         index = self.index_for_key(index_or_key)
@@ -203,6 +204,10 @@ class KeyedList(Generic[ItemType, KeyType], MutableSequence, KeyedBase):  # pyli
 
     def reverse(self):
         self._list.reverse()
+
+    def clear(self):
+        self._list.clear()
+        self._dict.clear()
 
     def __contains__(self, value):
         try:
